@@ -125,6 +125,7 @@ pub fn profile(prop: &str, faulting: bool) -> (Faults, Vec<(OpFamily, u32)>, boo
     if faulting {
         match prop {
             "C05" => f.alloc_fail_pm = 250,
+            "C12" | "C13" => f.alloc_fail_pm = 200,
             "C06" => {
                 f.giant_size = true;
                 f.lying_hint = true;
